@@ -97,3 +97,69 @@ Fixpoint pub_run (m : message) (st : pstate) (cuts : list cut) : list (list (opt
   | [] => []
   | c :: r => let '(ws, st') := pub_conn m st c in ws :: pub_run m st' r
   end.
+
+(* ---------- 3. RetryClient's memory of subscriptions and the re-subscription ---------- *)
+(* what the application asks of a RetryClient, in order *)
+Inductive sop :=
+| SSub (subs : list (str * N))     (* RetryClient.Subscribe(filters with requested QoS) *)
+| SUnsub (ts : list str).          (* RetryClient.Unsubscribe *)
+
+(* unsubscriptions.applyTo (subscriptions.go:33-43): drop the filter *)
+Definition est_unsub (t : str) (est : list (str * N)) : list (str * N) :=
+  filter (fun e => negb (str_eqb (fst e) t)) est.
+
+(* subscriptions.applyTo (subscriptions.go:23-29): a filter is kept once; subscribing again replaces it *)
+Fixpoint est_sub (subs est : list (str * N)) : list (str * N) :=
+  match subs with
+  | [] => est
+  | (t, q) :: r => est_sub r (est_unsub t est ++ [(t, q)])
+  end.
+
+(* subscribeImpl (subscribe.go:100-107) overwrites the caller's slice with the granted codes *)
+Fixpoint granted (subs : list (str * N)) (codes : list N) : list (str * N) :=
+  match subs, codes with
+  | (t, _) :: r, c :: cs => (t, c) :: granted r cs
+  | _, _ => subs
+  end.
+
+(* RetryClient.subscribe (retryclient.go:177-205): the request is remembered FIRST (with the values the
+   application passed), then BaseClient.Subscribe runs and overwrites the slice.
+   Result: (subEstablished, the caller's slice afterwards). *)
+Definition rc_subscribe (est subs : list (str * N)) (codes : list N) : list (str * N) * list (str * N) :=
+  (est_sub subs est, granted subs codes).
+
+(* RetryClient.unsubscribe (retryclient.go:208-236) *)
+Definition rc_unsubscribe (est : list (str * N)) (ts : list str) : list (str * N) :=
+  fold_left (fun e t => est_unsub t e) ts est.
+
+(* a history: each request with the codes the broker granted for it *)
+Fixpoint rc_run (est : list (str * N)) (ops : list (sop * list N)) : list (str * N) :=
+  match ops with
+  | [] => est
+  | (SSub subs, codes) :: r => rc_run (fst (rc_subscribe est subs codes)) r
+  | (SUnsub ts, _) :: r => rc_run (rc_unsubscribe est ts) r
+  end.
+
+(* Resubscribe (retryclient.go:452-467): one SUBSCRIBE per remembered filter, in order *)
+Definition resub_requests (est : list (str * N)) : list (list (str * N)) := map (fun s => [s]) est.
+
+(* specification, independent of the bookkeeping above: the QoS the application asked LAST for a filter
+   (None = never subscribed, or unsubscribed since) *)
+Fixpoint last_q (t : str) (subs : list (str * N)) (acc : option N) : option N :=
+  match subs with
+  | [] => acc
+  | (t', q) :: r => last_q t r (if str_eqb t' t then Some q else acc)
+  end.
+
+Fixpoint asked (t : str) (ops : list sop) (acc : option N) : option N :=
+  match ops with
+  | [] => acc
+  | SSub subs :: r => asked t r (last_q t subs acc)
+  | SUnsub ts :: r => asked t r (if existsb (fun x => str_eqb x t) ts then None else acc)
+  end.
+
+Fixpoint est_lookup (t : str) (est : list (str * N)) : option N :=
+  match est with
+  | [] => None
+  | (t', q) :: r => if str_eqb t' t then Some q else est_lookup t r
+  end.
